@@ -206,6 +206,8 @@ type Topic struct {
 	statsKey  string
 
 	handlers []*bufHandler
+
+	collectMu sync.Mutex
 }
 
 func (s *Topics) newTopic(id string) *Topic {
@@ -334,6 +336,10 @@ func (t *Topic) close() {
 }
 
 func (t *Topic) collect(event Event) error {
+	// Updating the state and queueing the event on the handlers is one step,
+	// otherwise concurrent collects can reach the handlers in another order than the state.
+	t.collectMu.Lock()
+	defer t.collectMu.Unlock()
 
 	// prev is the zero state if the event is new on this topic,
 	// do not keep a previous state from the topic the event was republished from.
